@@ -50,6 +50,8 @@ type Exec struct {
 	cfg Config
 
 	refRoot    map[string]string // reference term -> its allocation root (see setRoot)
+	rootNum    map[string]int    // allocation root -> its allocation number
+	refUB      map[string]int    // opaque reference term -> n with term <= refK*(alloc0+n)
 	fresh      int
 	typeTags   map[string]int
 	tagTypes   map[int]types.Type
@@ -76,6 +78,7 @@ type Exec struct {
 	noteSet   map[string]bool
 	safeSeq   map[string]int
 	arrBorn   map[string]int
+	bornFacts map[string]bornFact // born-bound facts by their text (see assumeBornAxiom)
 	needElemAxiom bool
 	frameSeq  int
 	globals   map[string]*Term
@@ -744,6 +747,29 @@ func (x *Exec) havocLoopHeap(fr *Frame, st *State, li *loopInfo) {
 					}
 					continue
 				}
+				if bi, ok := i.Common().Value.(*ssa.Builtin); ok && bi.Name() == "delete" {
+					// delete writes the domain/value arrays of that map type only
+					if mt, ok := i.Common().Args[0].Type().Underlying().(*types.Map); ok {
+						n := mapPrefix(mt)
+						names[n] = true
+						writesOld[n] = true
+						nonLocal = true
+						continue
+					}
+				}
+				if fn := i.Common().StaticCallee(); fn != nil && !i.Common().IsInvoke() {
+					if con := x.CS.Funcs[funcKey(fn)]; con != nil && !con.Inline && !con.Pure {
+						// a contracted callee writes what its assigns clause lists
+						if ns, ok := x.assignsArrayNames(fn, con); ok {
+							for _, n := range ns {
+								names[n] = true
+								writesOld[n] = true
+							}
+							nonLocal = true
+							continue
+						}
+					}
+				}
 				if x.callMayWriteHeap(i.Common()) {
 					all = true
 				}
@@ -755,12 +781,29 @@ func (x *Exec) havocLoopHeap(fr *Frame, st *State, li *loopInfo) {
 	if all {
 		x.heapHavocAll(st)
 	} else {
+		// writes whose target is the same in every iteration leave the rest of their array alone
+		lt := x.collectLoopTargets(fr, st, li, names)
+		// arrays known from the entry state (touched by the precondition) but not yet on this path:
+		// bring them in, so that their havoc is related to the entry heap by the frame fact
+		for n0, t0 := range x.heap0 {
+			if _, have := st.heap[n0]; have || x.heapGenOf(st, n0) != "0" {
+				continue
+			}
+			for pfx := range names {
+				if (n0 == pfx || strings.HasPrefix(n0, pfx+".")) && !lt.untargeted[pfx] && len(lt.idx[pfx]) > 0 {
+					st.heap[n0] = t0
+				}
+			}
+		}
 		// havoc every current heap array whose name matches
 		for n := range st.heap {
 			for pfx := range names {
 				if n == pfx || strings.HasPrefix(n, pfx+".") {
 					old := st.heap[n]
 					x.heapHavoc(st, n)
+					if !lt.untargeted[pfx] && len(lt.idx[pfx]) > 0 {
+						x.assumeLoopFrame(st, old, st.heap[n], lt.idx[pfx])
+					}
 					if !writesOld[pfx] && old.Sort.Idx.K == KInt {
 						// every store to this array inside the loop targets an object allocated during this
 						// run, so memory that existed at entry still reads as before the loop
@@ -855,6 +898,9 @@ func (x *Exec) arraysOfStructType(t types.Type) []string {
 
 func (x *Exec) callMayWriteHeap(c *ssa.CallCommon) bool {
 	if c.IsInvoke() {
+		if con := x.CS.Funcs[x.ifaceMethodKey(c)]; con != nil && con.Pure {
+			return false // (trusted) contract on the interface method
+		}
 		return !x.isPureInvoke(c)
 	}
 	if b, ok := c.Value.(*ssa.Builtin); ok {
@@ -929,6 +975,9 @@ func (x *Exec) fnMayWriteHeap(fn *ssa.Function, depth int) bool {
 
 func (x *Exec) callMayWriteHeapDepth(c *ssa.CallCommon, depth int) bool {
 	if c.IsInvoke() {
+		if con := x.CS.Funcs[x.ifaceMethodKey(c)]; con != nil && con.Pure {
+			return false // (trusted) contract on the interface method
+		}
 		return !x.isPureInvoke(c)
 	}
 	if b, ok := c.Value.(*ssa.Builtin); ok {
